@@ -206,74 +206,139 @@ fn atoms() -> Vec<X> {
     vec![X::Id("a"), X::Id("b"), X::Int(1), X::UInt(3), X::Dbl("1.5"), X::Bool(true), X::Null, X::Str("s".into())]
 }
 
-/// all source trees with exactly `n` construct nodes over the given leaves
-fn trees(n: usize, leaves: &[X], ops: &[&'static str], types: &[&'static str], memo: &mut Vec<Vec<X>>) -> Vec<X> {
-    while memo.len() <= n {
-        let k = memo.len();
-        let mut out: Vec<X> = Vec::new();
+/// Lazy, index-addressed space of all source trees with exactly `n` construct nodes over the
+/// given leaves, operators and casts (nothing is materialised: `build(n, idx)` decodes an index).
+pub struct TreeSpace {
+    leaves: Vec<X>,
+    ops: Vec<&'static str>,
+    types: Vec<&'static str>,
+    /// number of trees with exactly k construct nodes
+    counts: Vec<u64>,
+}
+
+impl TreeSpace {
+    fn new(leaves: Vec<X>, ops: &[&'static str], types: &[&'static str], maxn: usize) -> TreeSpace {
+        let mut t = TreeSpace { leaves, ops: ops.to_vec(), types: types.to_vec(), counts: Vec::new() };
+        for k in 0..=maxn {
+            let c = t.count(k);
+            t.counts.push(c);
+        }
+        t
+    }
+    fn unary_variants(&self) -> u64 {
+        11 + self.types.len() as u64
+    }
+    fn binary_variants(&self) -> u64 {
+        self.ops.len() as u64 + 6
+    }
+    /// ternary-like constructs only over small child spaces (keeps the space finite and dense)
+    fn ternary_ok(&self, i: usize, j: usize, l: usize) -> bool {
+        self.counts[i].saturating_mul(self.counts[j]).saturating_mul(self.counts[l]) <= 40_000
+    }
+    fn count(&self, k: usize) -> u64 {
         if k == 0 {
-            out.extend(leaves.iter().cloned());
-            out.push(X::List(vec![]));
-            out.push(X::Map(vec![]));
-            out.push(X::Call("f", vec![]));
-            for t in types {
-                out.push(X::Call(t, vec![]));
-            }
-        } else {
-            let one: Vec<X> = memo[k - 1].clone();
-            for a in &one {
-                out.push(X::Not(1, Box::new(a.clone())));
-                out.push(X::Not(2, Box::new(a.clone())));
-                out.push(X::Neg(1, Box::new(a.clone())));
-                out.push(X::Neg(2, Box::new(a.clone())));
-                out.push(X::Paren(Box::new(a.clone())));
-                out.push(X::List(vec![a.clone()]));
-                out.push(X::Map(vec![("k".into(), a.clone())]));
-                out.push(X::Call("f", vec![a.clone()]));
-                for t in types {
-                    out.push(X::Call(t, vec![a.clone()]));
-                }
-                out.push(X::Method(Box::new(a.clone()), "m", vec![]));
-                out.push(X::Field(Box::new(a.clone()), "g"));
-            }
-            for i in 0..k {
-                let j = k - 1 - i;
-                for a in &memo[i] {
-                    for b in &memo[j] {
-                        for op in ops {
-                            out.push(X::Bin(op, Box::new(a.clone()), Box::new(b.clone())));
-                        }
-                        out.push(X::List(vec![a.clone(), b.clone()]));
-                        out.push(X::Map(vec![("k".into(), a.clone()), ("l".into(), b.clone())]));
-                        out.push(X::Call("f", vec![a.clone(), b.clone()]));
-                        out.push(X::Call("int", vec![a.clone(), b.clone()]));
-                        out.push(X::Method(Box::new(a.clone()), "m", vec![b.clone()]));
-                        out.push(X::Index(Box::new(a.clone()), Box::new(b.clone())));
-                    }
-                }
-            }
-            for i in 0..k {
-                for j in 0..(k - i) {
-                    let l = k - 1 - i - j;
-                    // three children: only over leaves-sized pieces to keep the space finite and dense
-                    if memo[i].len() * memo[j].len() * memo[l].len() > 40_000 {
-                        continue;
-                    }
-                    for a in &memo[i] {
-                        for b in &memo[j] {
-                            for c in &memo[l] {
-                                out.push(X::Tern(Box::new(a.clone()), Box::new(b.clone()), Box::new(c.clone())));
-                                out.push(X::Call("f", vec![a.clone(), b.clone(), c.clone()]));
-                                out.push(X::Method(Box::new(a.clone()), "m", vec![b.clone(), c.clone()]));
-                            }
-                        }
-                    }
+            return self.leaves.len() as u64 + 3 + self.types.len() as u64;
+        }
+        let mut c = self.unary_variants() * self.counts[k - 1];
+        for i in 0..k {
+            let j = k - 1 - i;
+            c += self.binary_variants() * self.counts[i] * self.counts[j];
+        }
+        for i in 0..k {
+            for j in 0..(k - i) {
+                let l = k - 1 - i - j;
+                if self.ternary_ok(i, j, l) {
+                    c += 3 * self.counts[i] * self.counts[j] * self.counts[l];
                 }
             }
         }
-        memo.push(out);
+        c
     }
-    memo[n].clone()
+    fn build(&self, k: usize, mut idx: u64) -> X {
+        if k == 0 {
+            let nl = self.leaves.len() as u64;
+            if idx < nl {
+                return self.leaves[idx as usize].clone();
+            }
+            idx -= nl;
+            return match idx {
+                0 => X::List(vec![]),
+                1 => X::Map(vec![]),
+                2 => X::Call("f", vec![]),
+                i => X::Call(self.types[(i - 3) as usize], vec![]),
+            };
+        }
+        // unary-like
+        let u = self.unary_variants() * self.counts[k - 1];
+        if idx < u {
+            let a = self.build(k - 1, idx / self.unary_variants());
+            let v = idx % self.unary_variants();
+            let b = Box::new(a.clone());
+            return match v {
+                0 => X::Not(1, b),
+                1 => X::Not(2, b),
+                2 => X::Neg(1, b),
+                3 => X::Neg(2, b),
+                4 => X::Paren(b),
+                5 => X::List(vec![a]),
+                6 => X::Map(vec![("k".into(), a)]),
+                7 => X::Call("f", vec![a]),
+                8 => X::Method(b, "m", vec![]),
+                9 => X::Field(b, "g"),
+                10 => X::Field(b, "end"),
+                t => X::Call(self.types[(t - 11) as usize], vec![a]),
+            };
+        }
+        idx -= u;
+        for i in 0..k {
+            let j = k - 1 - i;
+            let seg = self.binary_variants() * self.counts[i] * self.counts[j];
+            if idx < seg {
+                let v = idx % self.binary_variants();
+                let r = idx / self.binary_variants();
+                let a = self.build(i, r / self.counts[j]);
+                let b = self.build(j, r % self.counts[j]);
+                let nops = self.ops.len() as u64;
+                return if v < nops {
+                    X::Bin(self.ops[v as usize], Box::new(a), Box::new(b))
+                } else {
+                    match v - nops {
+                        0 => X::List(vec![a, b]),
+                        1 => X::Map(vec![("k".into(), a), ("l".into(), b)]),
+                        2 => X::Call("f", vec![a, b]),
+                        3 => X::Call("int", vec![a, b]),
+                        4 => X::Method(Box::new(a), "m", vec![b]),
+                        _ => X::Index(Box::new(a), Box::new(b)),
+                    }
+                };
+            }
+            idx -= seg;
+        }
+        for i in 0..k {
+            for j in 0..(k - i) {
+                let l = k - 1 - i - j;
+                if !self.ternary_ok(i, j, l) {
+                    continue;
+                }
+                let seg = 3 * self.counts[i] * self.counts[j] * self.counts[l];
+                if idx < seg {
+                    let v = idx % 3;
+                    let r = idx / 3;
+                    let c = self.build(l, r % self.counts[l]);
+                    let r = r / self.counts[l];
+                    let b = self.build(j, r % self.counts[j]);
+                    let a = self.build(i, r / self.counts[j]);
+                    return match v {
+                        0 => X::Tern(Box::new(a), Box::new(b), Box::new(c)),
+                        1 => X::Call("f", vec![a, b, c]),
+                        _ => X::Method(Box::new(a), "m", vec![b, c]),
+                    };
+                }
+                idx -= seg;
+            }
+        }
+        unreachable!("index beyond the tree space")
+    }
 }
 
 // ---------------------------------------------------------------------------
@@ -816,7 +881,9 @@ fn check_tree(acc: &mut Acc, x: &X, fam: &str) {
 }
 
 pub struct Space {
-    trees: Vec<X>,
+    /// (tree space, node count, number of trees) segments, then the untranslatable list
+    segs: Vec<(TreeSpace, usize, u64)>,
+    untranslatable: Vec<X>,
     strs: Vec<String>,
 }
 
@@ -869,17 +936,19 @@ fn string_position(k: usize, s: &str) -> X {
 
 impl Space {
     pub fn new(t: Tier) -> Space {
-        let mut memo = Vec::new();
-        let mut all = Vec::new();
-        let leaves = atoms();
+        let mut segs: Vec<(TreeSpace, usize, u64)> = Vec::new();
         // full alphabet: <= 1 construct node (quick) / <= 2 (thorough)
-        for n in 0..=t.pick(1, 2) {
-            all.extend(trees(n, &leaves, &BINOPS, &TYPES, &mut memo));
+        let full_n = t.pick(1, 2);
+        for n in 0..=full_n {
+            let ts = TreeSpace::new(atoms(), &BINOPS, &TYPES, full_n);
+            let c = ts.counts[n];
+            segs.push((ts, n, c));
         }
         // reduced alphabet (3 leaves, 5 operators, 2 casts): one node more
-        let small = vec![X::Id("a"), X::Int(1), X::Str("s".into())];
-        let mut memo2 = Vec::new();
-        all.extend(trees(t.pick(2, 3), &small, &["||", "==", "in", "-", "*"], &["int", "string"], &mut memo2));
+        let small_n = t.pick(2, 3);
+        let ts = TreeSpace::new(vec![X::Id("a"), X::Int(1), X::Str("s".into())], &["||", "==", "in", "-", "*"], &["int", "string"], small_n);
+        let c = ts.counts[small_n];
+        segs.push((ts, small_n, c));
         // untranslatable constructs in every position
         let mut un = Vec::new();
         for u in [X::Match(Box::new(X::Id("a"))), X::Bytes, X::FStr] {
@@ -896,11 +965,21 @@ impl Space {
             un.push(X::Index(Box::new(X::Id("a")), Box::new(u.clone())));
             un.push(X::Not(1, Box::new(X::Paren(Box::new(u.clone())))));
         }
-        all.extend(un);
-        Space { trees: all, strs: hostile_strings(t.pick(3, 4)) }
+        Space { segs, untranslatable: un, strs: hostile_strings(t.pick(3, 4)) }
+    }
+    fn n_trees(&self) -> u64 {
+        self.segs.iter().map(|s| s.2).sum::<u64>() + self.untranslatable.len() as u64
     }
     fn run_tree(&self, idx: u64, acc: &mut Acc) {
-        check_tree(acc, &self.trees[idx as usize], "trees");
+        let mut i = idx;
+        for (ts, n, c) in &self.segs {
+            if i < *c {
+                check_tree(acc, &ts.build(*n, i), "trees");
+                return;
+            }
+            i -= c;
+        }
+        check_tree(acc, &self.untranslatable[i as usize], "trees");
     }
     fn run_sqlish(&self, idx: u64, acc: &mut Acc) {
         let x = sqlish_tree((idx % 5) as usize, SQLISH_FIELDS[(idx / 5) as usize]);
@@ -916,7 +995,7 @@ impl Space {
 pub fn replay_families(t: Tier) -> Vec<Family<'static>> {
     let sp: &'static Space = Box::leak(Box::new(Space::new(t)));
     vec![
-        Family::new("trees", sp.trees.len() as u64, move |i, a| sp.run_tree(i, a)),
+        Family::new("trees", sp.n_trees(), move |i, a| sp.run_tree(i, a)),
         Family::new("strings", (sp.strs.len() * STRING_POSITIONS) as u64, move |i, a| sp.run_string(i, a)),
         Family::new("field-names", (SQLISH_FIELDS.len() * 5) as u64, move |i, a| sp.run_sqlish(i, a)),
     ]
@@ -927,11 +1006,11 @@ pub fn run(t: Tier) -> i32 {
     let sp = Space::new(t);
     rep.rule = format!(
         "trees: all {} source trees with <= 1 (thorough: 2) construct nodes over 8 leaves and the full alphabet plus all with exactly 2 (thorough: 3) nodes over a reduced alphabet (3 leaves, 5 operators, 2 casts); constructs: 14 binary operators, ! and - runs of 1 and 2, ?:, parentheses, lists and maps of 0..2 entries, free calls with 0..3 arguments, the 9 type constructors with 0, 1 and 2 arguments, method calls with 0..2 arguments on any receiver (so calls alone, in member chains, after an index, followed by a member), member and index access; plus match / bytes / f-string in 12 positions each (must be reported unsupported). strings: all {} strings of length <= {} over {{a ' \" \\ - ; LF * /}} in 9 positions (alone, operand, call argument, list element, map key, map value, cast argument, index, method arguments); field-names: 12 field and method names spelled like words of the emitted dialect (end, when, or, NOT, json, ...) in 5 positions. The SQL is read back by an independent tokenizer/parser for the emitted dialect with SQL precedences; the tree must equal the source tree (operators, operand order, grouping, function names, argument order, paths, casts), the multiset of string tokens must equal the CEL strings and member names, and no comment opener or semicolon may appear outside a string. Non-trivial = every case that compiles; distinct by source",
-        sp.trees.len(),
+        sp.n_trees(),
         sp.strs.len(),
         t.pick(3, 4)
     );
-    rep.run_family(Family::new("trees", sp.trees.len() as u64, |i, a| sp.run_tree(i, a)));
+    rep.run_family(Family::new("trees", sp.n_trees(), |i, a| sp.run_tree(i, a)));
     rep.run_family(Family::new("strings", (sp.strs.len() * STRING_POSITIONS) as u64, |i, a| sp.run_string(i, a)));
     rep.run_family(Family::new("field-names", (SQLISH_FIELDS.len() * 5) as u64, |i, a| sp.run_sqlish(i, a)));
     rep.assumptions = vec![
